@@ -4,6 +4,7 @@ import Qx.Proofs.Bytes
 Helper lemmas for C06 (`Qx/Props/C06.lean`): base64 and decimal round trips, `splitOn` / `parseGS2` on messages
 built by concatenation, the DIGEST-MD5 quoting lemmas, manager invariants.
 -/
+set_option linter.unusedSimpArgs false
 namespace Qx.C06
 open Qx Qx.Bytes Qx.Crypto
 
@@ -332,8 +333,8 @@ theorem parseGS2_serverFirst (nonce s64 dec : Bytes) (hn : (44 : UInt8) ∉ nonc
   simp [gs2Field]
 
 theorem parseGS2_serverFinal (v64 : Bytes) (hv : (44 : UInt8) ∉ v64) :
-    parseGS2 ([118, 61] ++ v64) = [(118, v64)] := by
-  rw [parseGS2, show ([118, 61] ++ v64 : Bytes) = 118 :: 61 :: v64 by simp, splitOn_no_sep _ _ (by simpa using hv)]
+    parseGS2 (118 :: 61 :: v64) = [(118, v64)] := by
+  rw [parseGS2, splitOn_no_sep _ _ (by simpa using hv)]
   simp [gs2Field]
 
 theorem gs2Get_nil (k : UInt8) : gs2Get [] k = [] := rfl
@@ -435,15 +436,19 @@ theorem saslName_id (u : Bytes) (h1 : (44 : UInt8) ∉ u) (h2 : (61 : UInt8) ∉
     have hx2 : x ≠ 61 := fun e => h2 (by simp [e])
     simp [Ref.saslName, hx1, hx2, ih (fun e => h1 (by simp [e])) (fun e => h2 (by simp [e]))]
 
+/-- the client's state after it answered the RFC-built server-first message -/
+def scramSt2 (C : Crypto) (cr : Cred) (salt snonce : Bytes) (i : Nat) : ScramSt :=
+  { step := 2, firstBare := scramBare cr,
+    serverSig := C.HMAC (C.HMAC (C.Hi cr.pass salt i) sServerKey)
+      (scramAuthMessage cr (Ref.serverFirst cr.cnonce snonce salt i) (cr.cnonce ++ snonce)),
+    verified := false }
+
 /-- the client's answer to an RFC-built server-first message -/
 theorem scram_step1_honest (C : Crypto) (cr : Cred) (salt snonce : Bytes) (i : Nat)
     (hsalt : salt ≠ []) (hi : 1 ≤ i ∧ i ≤ 2147483647)
     (hc : (44 : UInt8) ∉ cr.cnonce) (hs : (44 : UInt8) ∉ snonce) :
     scramStep C cr (scramSt1 cr) (Ref.serverFirst cr.cnonce snonce salt i) =
-      ({ scramSt1 cr with
-          step := 2,
-          serverSig := C.HMAC (C.HMAC (C.Hi cr.pass salt i) sServerKey)
-            (scramAuthMessage cr (Ref.serverFirst cr.cnonce snonce salt i) (cr.cnonce ++ snonce)) },
+      (scramSt2 C cr salt snonce i,
        some (scramFinalBare (cr.cnonce ++ snonce) ++ sCommaPEq ++
          Base64.encode (xorBytes
            (C.HMAC (C.H (C.HMAC (C.Hi cr.pass salt i) sClientKey))
@@ -452,7 +457,7 @@ theorem scram_step1_honest (C : Crypto) (cr : Cred) (salt snonce : Bytes) (i : N
   obtain ⟨hr, hsl, hit⟩ := scram_reads_serverFirst cr.cnonce snonce salt i hc hs hi.2
   rw [scram_step1_ok C cr (scramSt1 cr) _ rfl (by rw [hr]; exact isPrefixOf_append _ _) (by rw [hsl]; exact hsalt)
     (by rw [hit]; omega)]
-  simp only [hr, hsl, hit, Int.toNat_natCast, scramAuthMessage, scramSt1]
+  simp only [hr, hsl, hit, Int.toNat_natCast, scramAuthMessage, scramSt1, scramSt2]
 
 /-- the reference server on a client-final message of the shape the client produces, for an arbitrary record -/
 theorem refServer_on_client_final (C : Crypto) (rec : Ref.ScramRecord) (cr : Cred) (sf nonce proof : Bytes) :
@@ -472,6 +477,14 @@ theorem refServer_on_client_final (C : Crypto) (rec : Ref.ScramRecord) (cr : Cre
     simp [scramAuthMessage, scramFinalBare_eq]
   simp only [Ref.scramServerFinal, e1, e2, decode?_encode, e3]
 
+/-- the RFC server-final message carrying the expected signature is accepted -/
+theorem scram_step2_honest (C : Crypto) (cr : Cred) (s : ScramSt) (hstep : s.step = 2) :
+    scramStep C cr s ([118, 61] ++ Base64.encode s.serverSig) = ({ s with step := 3, verified := true }, some []) := by
+  have hp : parseGS2 ([118, 61] ++ Base64.encode s.serverSig) = [(118, Base64.encode s.serverSig)] :=
+    parseGS2_serverFinal _ (comma_not_mem_encode _)
+  simp only [scramStep, hstep, hp]
+  simp [gs2Get, decodeLenient_encode]
+
 theorem scram_full_exchange (C : Crypto) (n : Nat) (hM : ∀ k m, (C.HMAC k m).length = n)
     (cr : Cred) (salt snonce : Bytes) (i : Nat)
     (hsalt : salt ≠ []) (hi : 1 ≤ i ∧ i ≤ 2147483647)
@@ -487,16 +500,16 @@ theorem scram_full_exchange (C : Crypto) (n : Nat) (hM : ∀ k m, (C.HMAC k m).l
   refine ⟨_, _, [118, 61] ++ Base64.encode (C.HMAC (C.HMAC (C.Hi cr.pass salt i) sServerKey)
     (scramAuthMessage cr (Ref.serverFirst cr.cnonce snonce salt i) (cr.cnonce ++ snonce))), rfl, rfl, ?_, ?_, ?_⟩
   · rw [refServer_on_client_final]
-    simp only [Ref.scramRecordOf, Ref.storedKey, Ref.clientKey, Ref.saltedPassword, Ref.serverKey]
-    rw [if_pos]
+    apply if_pos
     constructor
     · rw [xorBytes_length, hM, hM, hM]; exact Nat.min_self n
-    · rw [xorBytes_comm (C.HMAC _ _) (C.HMAC (C.Hi cr.pass salt i) sClientKey),
+    · show C.H (xorBytes (xorBytes (C.HMAC (C.H (C.HMAC (C.Hi cr.pass salt i) sClientKey)) _)
+          (C.HMAC (C.Hi cr.pass salt i) sClientKey)) (C.HMAC (C.H (C.HMAC (C.Hi cr.pass salt i) sClientKey)) _))
+        = C.H (C.HMAC (C.Hi cr.pass salt i) sClientKey)
+      rw [xorBytes_comm (C.HMAC _ _) (C.HMAC (C.Hi cr.pass salt i) sClientKey),
         xorBytes_self_cancel _ _ (by rw [hM, hM])]
-  · simp only [Ref.scramRecordOf, Ref.serverKey, Ref.saltedPassword]
-    simp [scramStep, parseGS2_serverFinal _ (comma_not_mem_encode _), gs2Get, decodeLenient_encode]
-  · simp only [Ref.scramRecordOf, Ref.serverKey, Ref.saltedPassword]
-    simp [scramStep, parseGS2_serverFinal _ (comma_not_mem_encode _), gs2Get, decodeLenient_encode]
+  · exact congrArg Prod.snd (scram_step2_honest C cr (scramSt2 C cr salt snonce i) rfl)
+  · exact congrArg (fun r => r.1.verified) (scram_step2_honest C cr (scramSt2 C cr salt snonce i) rfl)
 
 theorem scram_other_record (C : Crypto) (n : Nat) (hM : ∀ k m, (C.HMAC k m).length = n)
     (cr : Cred) (salt snonce : Bytes) (i : Nat) (rec : Ref.ScramRecord)
@@ -519,5 +532,518 @@ theorem scram_other_record (C : Crypto) (n : Nat) (hM : ∀ k m, (C.HMAC k m).le
       = (C.HMAC rec.storedKey (scramAuthMessage cr (Ref.serverFirst cr.cnonce snonce salt i) (cr.cnonce ++ snonce))).length := by
     rw [xorBytes_length, hM, hM, hM]; exact Nat.min_self n
   simp [hl]
+
+/-! ## DIGEST-MD5 quoting: `parseMessage (serializeMessage m) = m` -/
+
+/-- one-pass form of `escape` -/
+def escd : Bytes → Bytes
+  | [] => []
+  | c :: t => if c = 92 then 92 :: 92 :: escd t else if c = 34 then 92 :: 34 :: escd t else c :: escd t
+
+/-- `escd` with the quote escapes already undone -/
+def escMid : Bytes → Bytes
+  | [] => []
+  | c :: t => if c = 92 then 92 :: 92 :: escMid t else c :: escMid t
+
+theorem escape_eq_escd (v : Bytes) : escape v = escd v := by
+  unfold escape
+  induction v with
+  | nil => rfl
+  | cons c t ih =>
+    by_cases h92 : c = 92
+    · subst h92; simp [replace1, escd, ih]
+    · by_cases h34 : c = 34
+      · subst h34; simp [replace1, escd, ih]
+      · simp [replace1, escd, h92, h34, ih]
+
+theorem replace2_cons_ne (a b : UInt8) (r : Bytes) (x : UInt8) (l : Bytes) (h : x ≠ a) :
+    replace2 a b r (x :: l) = x :: replace2 a b r l := by
+  cases l with
+  | nil => simp [replace2]
+  | cons y t => simp [replace2, h]
+
+theorem replace2_cons_head_ne (a b : UInt8) (r : Bytes) (x : UInt8) (l : Bytes) (h : l.head? ≠ some b) :
+    replace2 a b r (x :: l) = x :: replace2 a b r l := by
+  cases l with
+  | nil => simp [replace2]
+  | cons y t =>
+    have hy : y ≠ b := by simpa using h
+    simp [replace2, hy]
+
+theorem escd_head (t : Bytes) : (escd t).head? ≠ some 34 := by
+  cases t with
+  | nil => simp [escd]
+  | cons c t =>
+    by_cases h92 : c = 92
+    · simp [escd, h92]
+    · by_cases h34 : c = 34
+      · simp [escd, h34]
+      · simp [escd, h92, h34]
+
+theorem unquote_escd (v : Bytes) : replace2 92 34 [34] (escd v) = escMid v := by
+  induction v with
+  | nil => simp [escd, escMid, replace2]
+  | cons c t ih =>
+    by_cases h92 : c = 92
+    · subst h92
+      simp only [escd, escMid, if_true]
+      rw [replace2_cons_head_ne _ _ _ _ _ (by simp), replace2_cons_head_ne _ _ _ _ _ (escd_head t), ih]
+    · by_cases h34 : c = 34
+      · subst h34
+        simp [escd, escMid, replace2, ih]
+      · simp only [escd, escMid, if_neg h92, if_neg h34]
+        rw [replace2_cons_ne _ _ _ _ _ h92, ih]
+
+theorem unbackslash_escMid (v : Bytes) : replace2 92 92 [92] (escMid v) = v := by
+  induction v with
+  | nil => simp [escMid, replace2]
+  | cons c t ih =>
+    by_cases h92 : c = 92
+    · subst h92; simp [escMid, replace2, ih]
+    · simp only [escMid, if_neg h92]
+      rw [replace2_cons_ne _ _ _ _ _ h92, ih]
+
+/-- the two sequential `replace` calls undo the escaping -/
+theorem unescape_escape (v : Bytes) : unescape (escape v) = v := by
+  rw [escape_eq_escd, unescape, unquote_escd, unbackslash_escMid]
+
+theorem getLast?_tail_ne {c : UInt8} {t : Bytes} (h : (c :: t).getLast? ≠ some 92) : t.getLast? ≠ some 92 := by
+  cases t with
+  | nil => simp
+  | cons b l => simpa [List.getLast?_cons_cons] using h
+
+/-- the closing-quote search lands on the real closing quote when the value does not end in a backslash -/
+theorem findClose_escd (t rest : Bytes) (p : UInt8) (hp : p = 92 → t ≠ []) (hl : t.getLast? ≠ some 92) :
+    findClose p (escd t ++ 34 :: rest) = some (escd t).length := by
+  induction t generalizing p with
+  | nil =>
+    have : p ≠ 92 := fun e => hp e rfl
+    simp [escd, findClose, this]
+  | cons c t ih =>
+    have hl' := getLast?_tail_ne hl
+    by_cases h92 : c = 92
+    · subst h92
+      have hne : t ≠ [] := by intro e; subst e; simp at hl
+      simp only [escd, if_true, List.cons_append, findClose]
+      simp only [show ¬ ((92 : UInt8) = 34 ∧ p ≠ 92) by simp, show ¬ ((92 : UInt8) = 34 ∧ (92 : UInt8) ≠ 92) by simp, if_false]
+      rw [ih 92 (fun _ => hne) hl']
+      simp
+    · by_cases h34 : c = 34
+      · subst h34
+        simp only [escd, if_neg h92, if_true, List.cons_append, findClose]
+        simp only [show ¬ ((92 : UInt8) = 34 ∧ p ≠ 92) by simp, if_false]
+        rw [ih 34 (by simp) hl']
+        simp
+      · simp only [escd, if_neg h92, if_neg h34, List.cons_append, findClose]
+        simp only [show ¬ (c = 34 ∧ p ≠ 92) by simp [h34], if_false]
+        rw [ih c (fun e => absurd e h92) hl']
+        simp
+
+theorem splitAt1_append (c : UInt8) (a b : Bytes) (h : c ∉ a) : splitAt1 c (a ++ c :: b) = some (a, b) := by
+  induction a with
+  | nil => simp [splitAt1]
+  | cons x xs ih =>
+    have hx : x ≠ c := fun e => h (by simp [e])
+    simp [splitAt1, hx, ih (fun e => h (by simp [e]))]
+
+theorem idxOrEnd_append (c : UInt8) (a tailS : Bytes) (h : c ∉ a) (ht : tailS = [] ∨ tailS.head? = some c) :
+    idxOrEnd c (a ++ tailS) = a.length := by
+  induction a with
+  | nil =>
+    rcases ht with rfl | ht
+    · rfl
+    · cases tailS with
+      | nil => rfl
+      | cons y t => simp at ht; simp [idxOrEnd, ht]
+  | cons x xs ih =>
+    have hx : x ≠ c := fun e => h (by simp [e])
+    simp [idxOrEnd, hx, ih (fun e => h (by simp [e]))]
+
+theorem parseGo_nil (fuel : Nat) (acc : DMap) : parseGo fuel [] acc = acc := by
+  cases fuel <;> simp [parseGo, splitAt1]
+
+theorem seps_facts (v : Bytes) (h : needsQuote v = false) : (34 : UInt8) ∉ v ∧ (44 : UInt8) ∉ v := by
+  simp only [needsQuote, List.any_eq_false] at h
+  constructor
+  · intro hm; exact absurd (h _ hm) (by decide)
+  · intro hm; exact absurd (h _ hm) (by decide)
+
+/-- the value part of one serialized entry -/
+def valEnc (v : Bytes) : Bytes := if needsQuote v then 34 :: (escape v ++ [34]) else v
+
+theorem serEntry_eq (kv : Bytes × Bytes) : serEntry kv = kv.1 ++ 61 :: valEnc kv.2 := rfl
+
+/-- one round of the parse loop on one serialized entry followed by nothing or by `,…` -/
+theorem parseGo_entry (fuel : Nat) (k v tailS : Bytes) (acc : DMap)
+    (hk : (61 : UInt8) ∉ k) (hkt : trim k = k) (hv : v.getLast? ≠ some 92)
+    (ht : tailS = [] ∨ tailS.head? = some 44) :
+    parseGo (fuel + 1) (k ++ 61 :: (valEnc v ++ tailS)) acc = parseGo fuel (tailS.drop 1) (mapInsert acc k v) := by
+  rw [parseGo, splitAt1_append 61 k _ hk]
+  simp only [hkt]
+  unfold valEnc
+  by_cases hq : needsQuote v = true
+  · -- quoted
+    simp only [hq, if_true, List.cons_append, List.append_assoc, List.isEmpty_cons, List.head?_cons, List.tail_cons,
+      Bool.false_eq_true, if_false]
+    rw [escape_eq_escd]
+    have hfc := findClose_escd v tailS 34 (by simp) hv
+    simp only [List.nil_append]
+    rw [hfc]
+    have htake : (escd v ++ 34 :: tailS).take (escd v).length = escd v := by simp
+    have hdrop : (escd v ++ 34 :: tailS).drop ((escd v).length + 2) = tailS.drop 1 := by
+      rw [show (escd v).length + 2 = (escd v).length + (1 + 1) by omega, ← List.drop_drop]
+      simp
+    simp only []
+    rw [htake, hdrop, ← escape_eq_escd, unescape_escape]
+  · -- not quoted
+    have hq' : needsQuote v = false := by simpa using hq
+    obtain ⟨h34, h44⟩ := seps_facts v hq'
+    simp only [hq', Bool.false_eq_true, if_false]
+    cases v with
+    | nil =>
+      rcases ht with rfl | ht
+      · simp [parseGo_nil]
+      · cases tailS with
+        | nil => simp [parseGo_nil]
+        | cons y t =>
+          have hy : y = 44 := by simpa using ht
+          subst hy
+          simp [idxOrEnd]
+    | cons x xs =>
+      have hx : x ≠ 34 := fun e => h34 (by simp [e])
+      have hidx := idxOrEnd_append 44 (x :: xs) tailS h44 ht
+      simp only [List.cons_append] at hidx
+      simp only [List.cons_append, List.isEmpty_cons, Bool.false_eq_true, if_false, List.head?_cons, Option.some.injEq, hx]
+      rw [hidx]
+      have htake : (x :: (xs ++ tailS)).take (x :: xs).length = x :: xs := by
+        rw [← List.cons_append]; simp
+      have hdrop : (x :: (xs ++ tailS)).drop ((x :: xs).length + 1) = tailS.drop 1 := by
+        rw [← List.cons_append, ← List.drop_drop]; simp
+      rw [htake, hdrop]
+
+/-- everything `serializeMessage` appends after the first entry -/
+def restS (m : DMap) : Bytes := m.flatMap fun e => 44 :: serEntry e
+
+theorem foldl_serOne (ba : Bytes) (m : DMap) (h : ba ≠ []) : m.foldl serOne ba = ba ++ restS m := by
+  induction m generalizing ba with
+  | nil => simp [restS]
+  | cons e t ih =>
+    have hne : ba.isEmpty = false := by cases ba <;> simp_all
+    simp only [List.foldl_cons, serOne, hne, Bool.false_eq_true, if_false]
+    rw [ih _ (by simp)]
+    simp [restS]
+
+theorem serializeMessage_cons (kv : Bytes × Bytes) (m : DMap) :
+    serializeMessage (kv :: m) = serEntry kv ++ restS m := by
+  simp only [serializeMessage, List.foldl_cons, serOne, List.isEmpty_nil, if_true, List.nil_append]
+  exact foldl_serOne _ _ (by simp [serEntry])
+
+theorem parseGo_entries (m : DMap) (kv : Bytes × Bytes) (acc : DMap) (fuel : Nat)
+    (hfuel : (serEntry kv ++ restS m).length < fuel)
+    (hkeys : ∀ e ∈ kv :: m, (61 : UInt8) ∉ e.1 ∧ trim e.1 = e.1)
+    (hvals : ∀ e ∈ kv :: m, e.2.getLast? ≠ some 92) :
+    parseGo fuel (serEntry kv ++ restS m) acc = (kv :: m).foldl (fun a e => mapInsert a e.1 e.2) acc := by
+  induction m generalizing kv acc fuel with
+  | nil =>
+    cases fuel with
+    | zero => omega
+    | succ f =>
+      have := parseGo_entry f kv.1 kv.2 [] acc (hkeys kv (by simp)).1 (hkeys kv (by simp)).2 (hvals kv (by simp)) (Or.inl rfl)
+      simp only [List.append_nil] at this
+      simp [restS, serEntry_eq, this, parseGo_nil]
+  | cons e t ih =>
+    cases fuel with
+    | zero => omega
+    | succ f =>
+      have hr : restS (e :: t) = 44 :: (serEntry e ++ restS t) := by simp [restS]
+      have := parseGo_entry f kv.1 kv.2 (44 :: (serEntry e ++ restS t)) acc (hkeys kv (by simp)).1 (hkeys kv (by simp)).2
+        (hvals kv (by simp)) (Or.inr rfl)
+      rw [hr, serEntry_eq kv, List.append_assoc, List.cons_append, this]
+      simp only [List.drop_one, List.tail_cons]
+      rw [ih e _ f (by
+            rw [hr] at hfuel
+            simp only [List.length_append, List.length_cons] at hfuel ⊢
+            omega)
+          (fun x hx => hkeys x (by simp [List.mem_cons] at hx ⊢; rcases hx with h | h <;> simp [h]))
+          (fun x hx => hvals x (by simp [List.mem_cons] at hx ⊢; rcases hx with h | h <;> simp [h]))]
+      simp
+
+theorem bytesLt_irrefl (a : Bytes) : bytesLt a a = false := by
+  induction a with
+  | nil => rfl
+  | cons x xs ih => simp [bytesLt, ih]
+
+theorem mapInsert_append (acc : DMap) (k v : Bytes) (h : ∀ a ∈ acc, bytesLt a.1 k = true) :
+    mapInsert acc k v = acc ++ [(k, v)] := by
+  induction acc with
+  | nil => rfl
+  | cons e t ih =>
+    have he := h e (by simp)
+    have hne : e.1 ≠ k := by intro e'; rw [e', bytesLt_irrefl] at he; simp at he
+    simp [mapInsert, hne, he, ih (fun a ha => h a (by simp [ha]))]
+
+theorem foldl_insert_sorted (m acc : DMap) (hacc : ∀ a ∈ acc, ∀ e ∈ m, bytesLt a.1 e.1 = true)
+    (hs : m.Pairwise fun a b => bytesLt a.1 b.1 = true) :
+    m.foldl (fun a e => mapInsert a e.1 e.2) acc = acc ++ m := by
+  induction m generalizing acc with
+  | nil => simp
+  | cons e t ih =>
+    rw [List.pairwise_cons] at hs
+    simp only [List.foldl_cons]
+    rw [mapInsert_append acc e.1 e.2 (fun a ha => hacc a ha e (by simp))]
+    rw [ih _ ?_ hs.2]
+    · simp
+    · intro a ha x hx
+      rcases List.mem_append.mp ha with ha | ha
+      · exact hacc a ha x (by simp [hx])
+      · simp only [List.mem_singleton] at ha
+        subst ha
+        exact hs.1 x hx
+
+theorem parse_serialize (m : DMap)
+    (hs : m.Pairwise fun a b => bytesLt a.1 b.1 = true)
+    (hkeys : ∀ e ∈ m, (61 : UInt8) ∉ e.1 ∧ trim e.1 = e.1)
+    (hvals : ∀ e ∈ m, e.2.getLast? ≠ some 92) :
+    parseMessage (serializeMessage m) = m := by
+  cases m with
+  | nil => simp [serializeMessage, parseMessage, parseGo_nil]
+  | cons kv t =>
+    rw [parseMessage, serializeMessage_cons, parseGo_entries t kv [] _ (by omega) hkeys hvals,
+      foldl_insert_sorted _ [] (by simp) hs]
+    simp
+
+/-! ## the managers -/
+
+/-- a SCRAM step that answers advances the step counter by one, never beyond 3, and reaches 3 only verified -/
+theorem scramStep_some (C : Crypto) (cr : Cred) (s : ScramSt) (ch resp : Bytes)
+    (h : (scramStep C cr s ch).2 = some resp) :
+    (scramStep C cr s ch).1.step = s.step + 1 ∧ s.step ≤ 2
+    ∧ ((scramStep C cr s ch).1.step = 3 → (scramStep C cr s ch).1.verified = true) := by
+  by_cases h0 : s.step = 0
+  · simp [scramStep, h0]
+  · by_cases h1 : s.step = 1
+    · unfold scramStep at h ⊢
+      rw [if_neg h0, if_pos h1] at h ⊢
+      dsimp only at h ⊢
+      split at h
+      · simp at h
+      · rename_i hc
+        rw [if_neg hc]
+        simp [h1]
+    · by_cases h2 : s.step = 2
+      · unfold scramStep at h ⊢
+        rw [if_neg h0, if_neg h1, if_pos h2] at h ⊢
+        split at h
+        · rename_i hc; rw [if_pos hc]; simp [h2]
+        · simp at h
+      · simp [scramStep, h0, h1, h2] at h
+
+def isChallenge : El → Bool
+  | .challenge _ => true
+  | _ => false
+
+def isSuccess : El → Bool
+  | .success _ => true
+  | _ => false
+
+theorem mgrRun_append (C : Crypto) (md5 : Bytes → Bytes) (cr : Cred) (st : MgrSt) (a b : List El) :
+    (mgrRun C md5 cr st (a ++ b)).1 = (mgrRun C md5 cr (mgrRun C md5 cr st a).1 b).1 := by
+  induction a generalizing st with
+  | nil => rfl
+  | cons e t ih => simp [mgrRun, ih]
+
+/-- once the task is finished every further element is rejected and nothing changes -/
+theorem mgrRun_not_pending (C : Crypto) (md5 : Bytes → Bytes) (cr : Cred) (st : MgrSt) (els : List El)
+    (h : st.pending = false) : (mgrRun C md5 cr st els).1 = st := by
+  induction els with
+  | nil => rfl
+  | cons e t ih => simp [mgrRun, mgrStep, h, ih]
+
+/-- SCRAM invariant of a manager state after `n` answered challenges -/
+def MgrInv (st : MgrSt) (n : Nat) : Prop :=
+  ∃ s, st.mech = .scram s
+    ∧ (st.pending = true → s.step = n + 1 ∧ s.step ≤ 3 ∧ (s.step = 3 → s.verified = true))
+    ∧ (st.pending = false → st.result ≠ some .success)
+
+theorem mgrInv_start (C : Crypto) (md5 : Bytes → Bytes) (cr : Cred) (sasl2 : Bool) :
+    MgrInv (mgrStart C md5 cr sasl2 .scram).1 0 := by
+  refine ⟨scramSt1 cr, ?_, ?_, ?_⟩
+  · simp [mgrStart, mechInit, mechRespond, scram_step0]
+  · intro _; simp [scramSt1]
+  · simp [mgrStart, mechInit, mechRespond, scram_step0]
+
+theorem mgrInv_step (C : Crypto) (md5 : Bytes → Bytes) (cr : Cred) (st : MgrSt) (n : Nat) (el : El)
+    (hinv : MgrInv st n) (hns : isSuccess el = false) :
+    MgrInv (mgrStep C md5 cr st el).1 (n + if isChallenge el then 1 else 0) := by
+  obtain ⟨s, hm, hp, hr⟩ := hinv
+  by_cases hpend : st.pending = true
+  · obtain ⟨hstep, hle, hver⟩ := hp hpend
+    cases el with
+    | success d => simp [isSuccess] at hns
+    | challenge data =>
+      simp only [mgrStep, hpend, Bool.not_true, Bool.false_eq_true, if_false, hm, mechRespond, isChallenge, if_true]
+      cases hresp : (scramStep C cr s data).2 with
+      | none =>
+        refine ⟨(scramStep C cr s data).1, rfl, ?_, ?_⟩
+        · intro h; simp at h
+        · intro _; simp
+      | some resp =>
+        obtain ⟨h1, h2, h3⟩ := scramStep_some C cr s data resp hresp
+        refine ⟨(scramStep C cr s data).1, rfl, ?_, ?_⟩
+        · intro _; exact ⟨by omega, by omega, h3⟩
+        · intro h; simp at h
+    | failure a =>
+      simp only [mgrStep, hpend, Bool.not_true, Bool.false_eq_true, if_false, isChallenge, Nat.add_zero]
+      split
+      · exact ⟨s, hm, by intro h; simp at h, by intro _; simp⟩
+      · exact ⟨s, hm, by intro h; simp at h, by intro _; simp⟩
+    | continue_ =>
+      simp only [mgrStep, hpend, Bool.not_true, Bool.false_eq_true, if_false, isChallenge, Nat.add_zero]
+      split
+      · exact ⟨s, hm, fun _ => ⟨hstep, hle, hver⟩, by intro h; simp at h⟩
+      · exact ⟨s, hm, fun _ => ⟨hstep, hle, hver⟩, hr⟩
+    | unknown =>
+      simp only [mgrStep, hpend, Bool.not_true, Bool.false_eq_true, if_false, isChallenge, Nat.add_zero]
+      exact ⟨s, hm, fun _ => ⟨hstep, hle, hver⟩, hr⟩
+  · have hpf : st.pending = false := by simpa using hpend
+    have : (mgrStep C md5 cr st el).1 = st := by simp [mgrStep, hpf]
+    rw [this]
+    exact ⟨s, hm, by intro h; simp [hpf] at h, hr⟩
+
+theorem mgrInv_run (C : Crypto) (md5 : Bytes → Bytes) (cr : Cred) (st : MgrSt) (n : Nat) (els : List El)
+    (hinv : MgrInv st n) (hns : ∀ e ∈ els, isSuccess e = false) :
+    MgrInv (mgrRun C md5 cr st els).1 (n + (els.filter isChallenge).length) := by
+  induction els generalizing st n with
+  | nil => simpa [mgrRun] using hinv
+  | cons e t ih =>
+    have h1 := mgrInv_step C md5 cr st n e hinv (hns e (by simp))
+    have h2 := ih _ _ h1 (fun x hx => hns x (by simp [hx]))
+    simp only [mgrRun]
+    by_cases hc : isChallenge e = true
+    · simp only [hc, if_true] at h2
+      simp only [List.filter_cons, hc, if_true, List.length_cons]
+      rw [show n + ((t.filter isChallenge).length + 1) = n + 1 + (t.filter isChallenge).length by omega]
+      exact h2
+    · have hc' : isChallenge e = false := by simpa using hc
+      simp only [hc', Bool.false_eq_true, if_false, Nat.add_zero] at h2
+      simpa [List.filter_cons, hc'] using h2
+
+/-- the partial theorem of `Props/C06.lean` -/
+theorem success_after_two_challenges (C : Crypto) (md5 : Bytes → Bytes) (cr : Cred) (sasl2 : Bool)
+    (pre post : List El) (d : Option Bytes)
+    (hpre : ∀ e ∈ pre, isSuccess e = false)
+    (hch : 2 ≤ (pre.filter isChallenge).length)
+    (hres : (mgrRun C md5 cr (mgrStart C md5 cr sasl2 .scram).1 (pre ++ El.success d :: post)).1.result = some .success) :
+    serverSignatureVerified (mgrRun C md5 cr (mgrStart C md5 cr sasl2 .scram).1 (pre ++ El.success d :: post)).1 = true := by
+  rw [mgrRun_append] at hres ⊢
+  obtain ⟨s, hm, hp, hr⟩ := mgrInv_run C md5 cr _ 0 pre (mgrInv_start C md5 cr sasl2) hpre
+  generalize (mgrRun C md5 cr (mgrStart C md5 cr sasl2 .scram).1 pre).1 = st at hm hp hr hres ⊢
+  by_cases hpend : st.pending = true
+  · obtain ⟨hstep, hle, hver⟩ := hp hpend
+    have h3 : s.step = 3 := by omega
+    have hst : (mgrRun C md5 cr st (El.success d :: post)).1 = { st with pending := false, result := some .success } := by
+      simp only [mgrRun, mgrStep, hpend, Bool.not_true, Bool.false_eq_true, if_false]
+      exact mgrRun_not_pending C md5 cr _ post rfl
+    rw [hst]
+    simp [serverSignatureVerified, hm, hver h3]
+  · have hpf : st.pending = false := by simpa using hpend
+    rw [mgrRun_not_pending C md5 cr st _ hpf] at hres
+    exact absurd hres (hr hpf)
+
+/-! ## PLAIN, DIGEST bits -/
+
+theorem splitOn_plain (user pass : Bytes) (hu : (0 : UInt8) ∉ user) (hp : (0 : UInt8) ∉ pass) :
+    splitOn 0 (Ref.plainMessage user pass) = [[], user, pass] := by
+  have e : Ref.plainMessage user pass = [] ++ 0 :: (user ++ 0 :: pass) := by simp [Ref.plainMessage]
+  rw [e, splitOn_append 0 [] _ (by simp), splitOn_append 0 user _ hu, splitOn_no_sep 0 pass hp]
+
+theorem mapGet?_insert_self (m : DMap) (k v : Bytes) : mapGet? (mapInsert m k v) k = some v := by
+  induction m with
+  | nil => simp [mapInsert, mapGet?]
+  | cons e t ih =>
+    unfold mapInsert
+    split
+    · simp [mapGet?]
+    · rename_i hne
+      split
+      · simp [mapGet?, hne, ih]
+      · simp [mapGet?]
+
+theorem mapGet?_insert_ne (m : DMap) (k k' v : Bytes) (h : k' ≠ k) : mapGet? (mapInsert m k v) k' = mapGet? m k' := by
+  induction m with
+  | nil => simp [mapInsert, mapGet?, Ne.symm h]
+  | cons e t ih =>
+    unfold mapInsert
+    split
+    · rename_i he
+      simp [mapGet?, Ne.symm h, he]
+    · split
+      · simp [mapGet?, ih]
+      · simp [mapGet?, Ne.symm h]
+
+/-- the directives of the client's digest-response -/
+theorem digestOutput_gets (md5 : Bytes → Bytes) (cr : Cred) (realm nonce secret : Bytes) :
+    mapGet? (digestOutput md5 cr realm nonce secret) kUsername = some cr.user
+    ∧ (mapGet? (digestOutput md5 cr realm nonce secret) kRealm).getD [] = realm
+    ∧ mapGet? (digestOutput md5 cr realm nonce secret) kNonce = some nonce
+    ∧ mapGet? (digestOutput md5 cr realm nonce secret) kQop = some sAuth
+    ∧ mapGet? (digestOutput md5 cr realm nonce secret) kDigestUri = some (digestUriOf cr)
+    ∧ mapGet? (digestOutput md5 cr realm nonce secret) kNc = some sNc1
+    ∧ mapGet? (digestOutput md5 cr realm nonce secret) kCnonce = some cr.cnonce
+    ∧ mapGet? (digestOutput md5 cr realm nonce secret) kResponse
+        = some (calculateDigest md5 sAuthenticate (digestUriOf cr) secret nonce cr.cnonce sNc1) := by
+  have d1 : kUsername ≠ kRealm := by decide
+  have d2 : kUsername ≠ kNonce := by decide
+  have d3 : kUsername ≠ kQop := by decide
+  have d4 : kUsername ≠ kCnonce := by decide
+  have d5 : kUsername ≠ kNc := by decide
+  have d6 : kUsername ≠ kDigestUri := by decide
+  have d7 : kUsername ≠ kResponse := by decide
+  have d8 : kUsername ≠ kCharset := by decide
+  have e2 : kRealm ≠ kNonce := by decide
+  have e3 : kRealm ≠ kQop := by decide
+  have e4 : kRealm ≠ kCnonce := by decide
+  have e5 : kRealm ≠ kNc := by decide
+  have e6 : kRealm ≠ kDigestUri := by decide
+  have e7 : kRealm ≠ kResponse := by decide
+  have e8 : kRealm ≠ kCharset := by decide
+  have f3 : kNonce ≠ kQop := by decide
+  have f4 : kNonce ≠ kCnonce := by decide
+  have f5 : kNonce ≠ kNc := by decide
+  have f6 : kNonce ≠ kDigestUri := by decide
+  have f7 : kNonce ≠ kResponse := by decide
+  have f8 : kNonce ≠ kCharset := by decide
+  have g4 : kQop ≠ kCnonce := by decide
+  have g5 : kQop ≠ kNc := by decide
+  have g6 : kQop ≠ kDigestUri := by decide
+  have g7 : kQop ≠ kResponse := by decide
+  have g8 : kQop ≠ kCharset := by decide
+  have h5 : kCnonce ≠ kNc := by decide
+  have h6 : kCnonce ≠ kDigestUri := by decide
+  have h7 : kCnonce ≠ kResponse := by decide
+  have h8 : kCnonce ≠ kCharset := by decide
+  have i6 : kNc ≠ kDigestUri := by decide
+  have i7 : kNc ≠ kResponse := by decide
+  have i8 : kNc ≠ kCharset := by decide
+  have j7 : kDigestUri ≠ kResponse := by decide
+  have j8 : kDigestUri ≠ kCharset := by decide
+  have k8 : kResponse ≠ kCharset := by decide
+  unfold digestOutput
+  by_cases hr : realm.isEmpty = true
+  · have hre : realm = [] := by simpa using hr
+    simp only [hr, if_true]
+    refine ⟨?_, ?_, ?_, ?_, ?_, ?_, ?_, ?_⟩ <;>
+      simp [mapGet?_insert_self, mapGet?_insert_ne, mapGet?, hre, d1, d2, d3, d4, d5, d6, d7, d8, e2, e3, e4, e5, e6, e7, e8, f3, f4, f5, f6, f7, f8, g4, g5, g6, g7, g8, h5, h6, h7, h8, i6, i7, i8, j7, j8, k8, d1.symm, d2.symm, d3.symm, d4.symm, d5.symm, d6.symm, d7.symm, d8.symm, e2.symm, e3.symm, e4.symm, e5.symm, e6.symm, e7.symm, e8.symm, f3.symm, f4.symm, f5.symm, f6.symm, f7.symm, f8.symm, g4.symm, g5.symm, g6.symm, g7.symm, g8.symm, h5.symm, h6.symm, h7.symm, h8.symm, i6.symm, i7.symm, i8.symm, j7.symm, j8.symm, k8.symm]
+  · simp only [hr, Bool.false_eq_true, if_false]
+    refine ⟨?_, ?_, ?_, ?_, ?_, ?_, ?_, ?_⟩ <;>
+      simp [mapGet?_insert_self, mapGet?_insert_ne, mapGet?, d1, d2, d3, d4, d5, d6, d7, d8, e2, e3, e4, e5, e6, e7, e8, f3, f4, f5, f6, f7, f8, g4, g5, g6, g7, g8, h5, h6, h7, h8, i6, i7, i8, j7, j8, k8, d1.symm, d2.symm, d3.symm, d4.symm, d5.symm, d6.symm, d7.symm, d8.symm, e2.symm, e3.symm, e4.symm, e5.symm, e6.symm, e7.symm, e8.symm, f3.symm, f4.symm, f5.symm, f6.symm, f7.symm, f8.symm, g4.symm, g5.symm, g6.symm, g7.symm, g8.symm, h5.symm, h6.symm, h7.symm, h8.symm, i6.symm, i7.symm, i8.symm, j7.symm, j8.symm, k8.symm]
+
+/-! ## a toy hash family for the non-vacuity examples (fixed output length 2, not constant) -/
+
+def toyCrypto : Crypto :=
+  ⟨fun x => x, fun k m => [UInt8.ofNat k.length, UInt8.ofNat (m.length % 7)], fun p s i => p ++ s ++ [UInt8.ofNat i]⟩
+
+/-- user `u`, password `p`, client nonce `x` -/
+def toyCred : Cred := { user := [117], pass := [112], cnonce := [120], host := [104], service := [120, 109, 112, 112] }
 
 end Qx.C06
